@@ -100,6 +100,8 @@ class StateTriggerDecorator(TriggerDecorator, ExpressionDecorator, AutoKwargsDec
 
     last_func_args: dict[str, Any]
     last_new_vars: dict[str, Any]
+    hold_func_args: dict[str, Any] | None = None
+    hold_new_vars: dict[str, Any] | None = None
 
     async def validate(self) -> None:
         """Validate and normalize arguments."""
@@ -193,12 +195,18 @@ class StateTriggerDecorator(TriggerDecorator, ExpressionDecorator, AutoKwargsDec
                     else:
                         _LOGGER.debug("state_hold started, %s", self)
                         self.true_entered_at = now
+                        # the delayed trigger carries the arguments of the first true evaluation
+                        self.hold_func_args = self.last_func_args
+                        self.hold_new_vars = self.last_new_vars
 
             if state_hold_true_passed:
                 self.true_entered_at = None
-                await self.dispatch(
-                    DispatchData(self.last_func_args, trigger_context={"new_vars": self.last_new_vars})
-                )
+                if self.state_hold is not None and self.hold_func_args is not None:
+                    func_args, new_vars = self.hold_func_args, self.hold_new_vars
+                else:
+                    func_args, new_vars = self.last_func_args, self.last_new_vars
+                self.hold_func_args = self.hold_new_vars = None
+                await self.dispatch(DispatchData(func_args, trigger_context={"new_vars": new_vars}))
                 self.__test_handshake__ = None
         else:
             self.true_entered_at = None
@@ -215,9 +223,9 @@ class StateTriggerDecorator(TriggerDecorator, ExpressionDecorator, AutoKwargsDec
         true_duration = now - self.true_entered_at
         if true_duration >= self.state_hold:
             self.true_entered_at = None
-            await self.dispatch(
-                DispatchData(self.last_func_args, trigger_context={"new_vars": self.last_new_vars})
-            )
+            func_args, new_vars = self.hold_func_args, self.hold_new_vars
+            self.hold_func_args = self.hold_new_vars = None
+            await self.dispatch(DispatchData(func_args, trigger_context={"new_vars": new_vars}))
 
     async def _cycle(self) -> None:
         """Run the trigger cycle with state_hold and state_hold_false logic."""
